@@ -135,6 +135,10 @@ func runCorpus(c *vkit.Collector, g *gen) {
 	if onEdgeExact(pl[0], pl[1], north) {
 		checkContained(c, "Polyline", boundsOf{pl.RectBound(), pl.CapBound(), pl.CellUnionBound()}, north, map[string]interface{}{"class": "corpus", "polyline": chainJSON(pl)})
 	}
+	pl2 := s2.Polyline{raw(hx("-0x1.b94698402c4c9p-03"), 0, hx("-0x1.f3f9466b218f9p-01")), raw(hx("0x1.b946983dbefa9p-03"), 0, hx("0x1.f3f9466b43d59p-01"))}
+	if onEdgeExact(pl2[0], pl2[1], north) {
+		checkContained(c, "Polyline", boundsOf{pl2.RectBound(), pl2.CapBound(), nil}, north, map[string]interface{}{"class": "corpus", "polyline": chainJSON(pl2)})
+	}
 	// Cap.RectBound: cap of radius just under pi/2 centred on the equator
 	cp := s2.VerifC10CapFromChord(raw(0, 1, 0), 1.999999999771825)
 	searchCapPoint(c, cp, raw(hx("0x1.f30dcfcff036cp-01"), hx("0x1.f5c311a626331p-34"), hx("-0x1.c9a19f944e524p-03")))
@@ -147,7 +151,7 @@ func runCorpus(c *vkit.Collector, g *gen) {
 }
 
 func runBounderTraces(c *vkit.Collector, g *gen, budget int) {
-	n := 260 * budget
+	n := 500 * budget
 	for k := 0; k < n; k++ {
 		chain, class := g.chain()
 		c.Class("chain:" + class)
@@ -171,7 +175,7 @@ func runBounderTraces(c *vkit.Collector, g *gen, budget int) {
 
 // ---- [T] translated leaves ----
 func runLeaves(c *vkit.Collector, g *gen, budget int) {
-	n := 120 * budget
+	n := 200 * budget
 	for k := 0; k < n; k++ {
 		r := g.rect()
 		R := rectT(r)
@@ -213,7 +217,7 @@ func runLeaves(c *vkit.Collector, g *gen, budget int) {
 
 // ---- [T] loops: initBound pole logic, Invert ----
 func runLoops(c *vkit.Collector, g *gen, budget int) {
-	n := 60 * budget
+	n := 150 * budget
 	for k := 0; k < n; k++ {
 		vs, class := g.loopVertices()
 		l := s2.LoopFromPoints(vs)
@@ -245,7 +249,7 @@ func runLoops(c *vkit.Collector, g *gen, budget int) {
 
 // ---- [T] cells and cell unions ----
 func runCells(c *vkit.Collector, g *gen, budget int) {
-	n := 50 * budget
+	n := 100 * budget
 	for k := 0; k < n; k++ {
 		id := g.cellID()
 		cell := s2.CellFromCellID(id)
@@ -261,7 +265,7 @@ func runCells(c *vkit.Collector, g *gen, budget int) {
 		}
 		searchCell(c, g, cell)
 	}
-	for k := 0; k < 25*budget; k++ {
+	for k := 0; k < 50*budget; k++ {
 		cu := g.cellUnion()
 		rs, caps, cells := []string{}, []string{}, []string{}
 		for _, id := range cu {
@@ -281,7 +285,7 @@ func runCells(c *vkit.Collector, g *gen, budget int) {
 
 // ---- [T] monotoneChain against the model run on the observed orientation table ----
 func runHullT(c *vkit.Collector, g *gen, budget int) {
-	for k := 0; k < 40*budget; k++ {
+	for k := 0; k < 60*budget; k++ {
 		pts := g.hullPoints(3 + g.rng.Intn(6))
 		n := len(pts)
 		// sort as ConvexHull does, by running the real query and reading the points back
